@@ -9,7 +9,7 @@
     in-kernel evaluation of the model of reduce. *)
 From Coq Require Import ZArith.
 From LC Require Import Spec.Encodings Spec.Confluence Spec.NorEval Model.Reduction Gen.Terms
-  Proofs.Sound Proofs.ReduceProps Proofs.Normalise Proofs.Convert Proofs.SignedArith.
+  Proofs.Sound Proofs.ReduceProps Proofs.Normalise Proofs.Convert Proofs.SignedArith Proofs.Returns.
 
 Theorem C15_church : signed_spec church lc_num_signed_simplify_church lc_num_signed_modulus_church
   lc_num_signed_to_signed_church lc_num_signed_add_church lc_num_signed_sub_church lc_num_signed_mul_church.
@@ -47,6 +47,41 @@ Proof. exact nor_normalises. Qed.
 Theorem C15_hno_returns : forall t v, red t v -> nfb v = true -> exists fuel c, reduce_m fuel HNO 0 t = Some (v, c).
 Proof. exact hno_reduce_normalises. Qed.
 
+(** the property as stated: what [reduce] returns under the two normalising orders, for ALL pairs, per encoding *)
+Definition signed_returns (o : order) (enc : nat -> term) (simplify modulus to_signed add sub mul : term) : Prop :=
+  forall p1 n1 p2 n2 x : nat,
+  returns o (App simplify (sp enc p1 n1)) (sp enc (zpos (sval p1 n1)) (zneg (sval p1 n1))) /\
+  returns o (App modulus (sp enc p1 n1)) (enc (Z.abs_nat (sval p1 n1))) /\
+  returns o (App lc_num_signed_neg (sp enc p1 n1)) (sp enc n1 p1) /\
+  returns o (App to_signed (enc x)) (sp enc x 0) /\
+  returns o (App (App add (sp enc p1 n1)) (sp enc p2 n2))
+            (sp enc (zpos (sval p1 n1 + sval p2 n2)) (zneg (sval p1 n1 + sval p2 n2))) /\
+  returns o (App (App sub (sp enc p1 n1)) (sp enc p2 n2))
+            (sp enc (zpos (sval p1 n1 - sval p2 n2)) (zneg (sval p1 n1 - sval p2 n2))) /\
+  returns o (App (App mul (sp enc p1 n1)) (sp enc p2 n2))
+            (sp enc (zpos (sval p1 n1 * sval p2 n2)) (zneg (sval p1 n1 * sval p2 n2))).
+Lemma signed_returns_of o enc s m t a b c : lazy o -> (forall k, nfb (enc k) = true) ->
+  signed_spec enc s m t a b c -> signed_returns o enc s m t a b c.
+Proof.
+  intros L N [H1 H2 H3 H4 H5 H6 H7] p1 n1 p2 n2 x.
+  assert (NP : forall a b, nfb (sp enc a b) = true) by (intros; apply pair_nf; apply N).
+  repeat split; apply (lazy_returns o); auto; first [apply H5 | apply H6 | apply H7].
+Qed.
+Theorem C15_reduce_returns : forall o, lazy o ->
+  signed_returns o church lc_num_signed_simplify_church lc_num_signed_modulus_church lc_num_signed_to_signed_church
+                 lc_num_signed_add_church lc_num_signed_sub_church lc_num_signed_mul_church /\
+  signed_returns o scott lc_num_signed_simplify_scott lc_num_signed_modulus_scott lc_num_signed_to_signed_scott
+                 lc_num_signed_add_scott lc_num_signed_sub_scott lc_num_signed_mul_scott /\
+  signed_returns o parigot lc_num_signed_simplify_parigot lc_num_signed_modulus_parigot lc_num_signed_to_signed_parigot
+                 lc_num_signed_add_parigot lc_num_signed_sub_parigot lc_num_signed_mul_parigot /\
+  signed_returns o stumpfu lc_num_signed_simplify_stumpfu lc_num_signed_modulus_stumpfu lc_num_signed_to_signed_stumpfu
+                 lc_num_signed_add_stumpfu lc_num_signed_sub_stumpfu lc_num_signed_mul_stumpfu.
+Proof.
+  intros o L. split; [|split; [|split]]; apply signed_returns_of; auto.
+  - apply church_nf. - apply signed_church. - apply scott_nf. - apply signed_scott.
+  - intros k; apply parigot_nf. - apply signed_parigot. - apply stumpfu_nf. - apply signed_stumpfu.
+Qed.
+
 Print Assumptions C15_church.
 Print Assumptions C15_scott.
 Print Assumptions C15_parigot.
@@ -56,3 +91,4 @@ Print Assumptions C15_canonical.
 Print Assumptions C15_pairs_normal.
 Print Assumptions C15_nor_returns.
 Print Assumptions C15_hno_returns.
+Print Assumptions C15_reduce_returns.
